@@ -614,7 +614,31 @@ func leakKey(stack string) string {
 // c12CloseSemantics: sequential, per-handle close semantics in isolation (incl. Rollback/Get sequences around Close).
 func c12CloseSemantics(c *core.Ctx) {
 	p := &c12Prog{c: c}
-	switch c.Rng.IntN(6) {
+	switch c.Rng.IntN(7) {
+	case 6: // a long cooldown (an hour): the cooldown timer the last change started is still pending when the Buffer is
+		// closed; once Close has returned and Done is closed, nothing of the library keeps running for the rest of it
+		b := newBuffer(cleanerSpec{}, time.Hour, nil)
+		cons, _ := b.NewConsumer()
+		for i := 0; i < 1+c.Rng.IntN(3); i++ {
+			b.Put(context.Background(), i)
+		}
+		if c.Rng.IntN(2) == 0 {
+			cons.Get(context.Background())
+			cons.Commit()
+		}
+		time.Sleep(time.Duration(c.Rng.IntN(300)) * time.Microsecond)
+		cons.Close()
+		if p.bounded("Buffer.Close with a cooldown timer pending", func() {
+			if err := b.Close(); err != nil {
+				p.problem("close-error", "first Buffer.Close returned %v", err)
+			}
+		}) {
+			p.checkBufferClosed(b, nil, nil)
+			if leaks := core.LibLeaks(3000); len(leaks) > 0 && len(p.probs) == 0 {
+				c.Violate("goroutine-leak:"+leakKey(leaks[0]), "the Buffer (cooldown 1h) is closed, its consumer is closed, every call has returned, and %d library goroutine(s) are still running; first:\n%s", len(leaks), leaks[0])
+				c.SetDump(strings.Join(leaks, "\n\n"))
+			}
+		}
 	case 5: // a custom cleaner that always asks for more than there is ("purge": the shift is applied as far as
 		// possible), so that it is also evaluated, with a positive answer, on an EMPTY buffer: Put, NewConsumer and Close
 		// still complete, Done closes, nothing is left running
